@@ -189,9 +189,61 @@ def base_env(relpath, keep=()):
         modname = modname[: -len(".__init__")]
     mod = importlib.import_module(modname)
     env = {}
+    env.update(pure_stdlib())
     for k, v in vars(mod).items():
         if k.startswith("__"):
             continue
         if k in keep or not (callable(v) or isinstance(v, types.ModuleType)):
             env[k] = v
     return env
+
+
+def call_by_name(fn, *args, **available):
+    """Call an extracted function whose former closure variables may have become parameters (or vice versa): parameters that
+    `args` does not cover are bound BY NAME from `available`; names the function does not take are ignored (they are then
+    globals of its environment, where the sidecar put the same objects)."""
+    import inspect
+
+    try:
+        params = list(inspect.signature(fn).parameters.values())
+    except (TypeError, ValueError):
+        return fn(*args)
+    kw = {}
+    for prm in params[len(args):]:
+        if prm.kind in (prm.POSITIONAL_OR_KEYWORD, prm.KEYWORD_ONLY) and prm.name in available:
+            kw[prm.name] = available[prm.name]
+    return fn(*args, **kw)
+
+
+def pure_stdlib():
+    """pure helper modules of the standard library that extracted code may use whatever the sidecar anticipated (a refactoring may
+    introduce e.g. collections.defaultdict or itertools.chain); applied to symbolic proxies they raise TypeError -> undecided"""
+    import collections
+    import functools
+    import itertools
+    import operator
+
+    return {"collections": collections, "itertools": itertools, "functools": functools, "operator": operator}
+
+
+def real_method_fallback(relpath, classname, env, **extract_kw):
+    """__getattr__ for a sidecar's ``self`` proxy: an attribute the proxy does not define that is a method of the REAL class
+    (typically a helper method introduced by a refactoring) is extracted with the usual rewrites, compiled into the unit's
+    environment and bound to the proxy - verified inline like R9 does for module-level helpers."""
+    import types
+
+    from .extract import ExtractionError
+
+    def __getattr__(self, name):
+        if name.startswith("__"):
+            raise AttributeError(name)
+        try:
+            ex = get(relpath, f"{classname}.{name}", **({"cut_loops": "auto"} | extract_kw))
+        except ExtractionError:
+            raise AttributeError(name) from None
+        if not hasattr(ex.node, "args"):
+            raise AttributeError(name)
+        fn = ex.compile_into(env)
+        return types.MethodType(fn, self)
+
+    return __getattr__
